@@ -345,12 +345,289 @@ fn strategy(t: Tier) -> BoxedStrategy<Case> {
     (0u8..4, prop::collection::vec(op(), 1..t.pick(25usize, 50usize))).prop_map(|(seg, ops)| Case { seg, ops }).boxed()
 }
 
+// ---- the log as its real caller uses it: sequence numbers through the Ingester --------------------
+
+/// One step of an ingester process' life.  A crash is emulated at a named pause point of the
+/// write / flush path (the step's future is dropped there) or by dropping the process between
+/// steps, optionally with one more, never acknowledged entry cut short at the end of the log.
+#[derive(Clone, Debug, Serialize, Deserialize)]
+pub enum IOp {
+    /// write a batch of `rows` rows (crosses the flush threshold every `flush_rows` rows)
+    Write { rows: u8, crash_at: Option<u8> },
+    /// graceful shutdown: the flush timer flushes what is buffered, then the process ends
+    Shutdown { crash_at: Option<u8> },
+    /// kill the process; `torn` = bytes of one more entry that reached the disk (0 = none)
+    Kill { torn: u16 },
+}
+
+#[derive(Clone, Debug, Serialize, Deserialize)]
+pub struct ICase {
+    /// 0 = every entry gets its own segment, 1 = three entries per segment, 2 = one large segment
+    pub segments: u8,
+    pub flush_rows: u8,
+    pub ops: Vec<IOp>,
+    /// pause point at which a start-up (ensure_wal, with its recovery flush) is crashed, per restart
+    pub restart_crash: Vec<Option<u8>>,
+    /// a crash right after the log was truncated catches the flushed-sequence file being rewritten
+    /// (it is written in place): the file is left with this many of its 8 bytes
+    pub mark_torn: Option<u8>,
+}
+
+const PAUSE_POINTS: [&str; 4] = ["ingester:after_wal_append", "flush:after_register", "flush:after_truncate", "flush:after_persist"];
+
+/// read-only scan of the log directory: (seq, payload fingerprint) of every complete entry, and the mark
+fn scan_wal(dir: &Path) -> (BTreeMap<u64, u64>, Option<u64>) {
+    let mut entries = BTreeMap::new();
+    let mut names: Vec<_> = std::fs::read_dir(dir).map(|rd| rd.filter_map(|e| e.ok()).map(|e| e.path()).collect()).unwrap_or_default();
+    names.sort();
+    for p in &names {
+        let name = p.file_name().and_then(|n| n.to_str()).unwrap_or("");
+        if !(name.starts_with("segment-") && name.ends_with(".wal")) {
+            continue;
+        }
+        let data = std::fs::read(p).unwrap_or_default();
+        let mut off = 0usize;
+        while off + 22 <= data.len() {
+            if &data[off..off + 4] != b"CSWA" {
+                break;
+            }
+            let seq = u64::from_le_bytes(data[off + 6..off + 14].try_into().unwrap());
+            let len = u32::from_le_bytes(data[off + 14..off + 18].try_into().unwrap()) as usize;
+            if off + 22 + len > data.len() {
+                break;
+            }
+            let mut h: u64 = 0xcbf29ce484222325;
+            for b in &data[off + 22..off + 22 + len] {
+                h ^= *b as u64;
+                h = h.wrapping_mul(0x100000001b3);
+            }
+            entries.insert(seq, h);
+            off += 22 + len;
+        }
+    }
+    let mark = std::fs::read(dir.join("flushed_seq")).ok().and_then(|b| if b.len() == 8 { Some(u64::from_le_bytes(b[..8].try_into().unwrap())) } else { None });
+    (entries, mark)
+}
+
+pub fn exec_ingester(case: &ICase) -> Outcome {
+    use cardinalsin::ingester::{Ingester, IngesterConfig};
+    use cardinalsin::metadata::{LocalMetadataClient, MetadataClient};
+    use cardinalsin::schema::MetricSchema;
+    let rt = crate::util::rt_paused();
+    let dir = scratch_dir();
+    let wal_dir = dir.path().join("wal");
+    let out = rt.block_on(async {
+        let mut out = Outcome::pass();
+        let store: Arc<dyn object_store::ObjectStore> = Arc::new(object_store::memory::InMemory::new());
+        let md: Arc<dyn MetadataClient> = Arc::new(LocalMetadataClient::new());
+        // size of one entry, to set the segment limit in entries
+        let probe = crate::gen::build_batch(&crate::gen::BatchSpec { schema: 0, rows: vec![crate::gen::RowSpec { ts_step: 0, ts_jitter: 0, metric: 0, labels: [None, None, None], fval: Some(0), ival: None }] }, 1_700_000_000_000_000_000, 0, None);
+        let entry_len = {
+            let d = scratch_dir();
+            let mut w = WriteAheadLog::open(WalConfig { wal_dir: d.path().to_path_buf(), max_segment_size: 1 << 30, sync_mode: WalSyncMode::EveryWrite, enabled: true }).await.expect("probe wal");
+            let _ = w.append(&probe).await;
+            drop(w);
+            seg_files(d.path()).values().sum::<u64>() as usize
+        };
+        let max_segment_size = match case.segments % 3 {
+            0 => 1,
+            1 => entry_len * 3 + 8,
+            _ => 1 << 30,
+        };
+        let cfg = || IngesterConfig { flush_row_count: 1 + (case.flush_rows as usize % 4), flush_interval: std::time::Duration::from_secs(3600), wal: WalConfig { wal_dir: wal_dir.clone(), max_segment_size, sync_mode: WalSyncMode::EveryWrite, enabled: true }, ..Default::default() };
+        // crash point: the armed pause point never returns; the step is then abandoned
+        let armed: Arc<parking_lot::Mutex<Option<&'static str>>> = Arc::new(parking_lot::Mutex::new(None));
+        {
+            let armed = armed.clone();
+            cardinalsin::verif_hooks::set_pause_handler(Some(Arc::new(move |point: &'static str| {
+                let hit = *armed.lock() == Some(point);
+                Box::pin(async move {
+                    if hit {
+                        std::future::pending::<()>().await;
+                    }
+                })
+            })));
+        }
+        let limit = std::time::Duration::from_secs(100_000);
+        let mut seen: BTreeMap<u64, u64> = BTreeMap::new();
+        let mut high = 0u64; // highest sequence ever acknowledged or recorded as flushed
+        let mut rid = 0i64;
+        let mut proc: Option<Ingester> = None;
+        let mut restarts = 0usize;
+        let mut crashes_in_flush = 0u32;
+        // judge the log after a step: every entry that is new must lie above everything seen before
+        let mut judge = |what: &str, out: &mut Outcome, seen: &mut BTreeMap<u64, u64>, high: &mut u64| -> bool {
+            let (entries, mark) = scan_wal(&wal_dir);
+            for (seq, fp) in &entries {
+                match seen.get(seq) {
+                    Some(old) if old != fp => {
+                        out.set_fail("ingester:sequence-number-reused", format!("after {}: sequence {} now names another entry than before", what, seq));
+                        return false;
+                    }
+                    Some(_) => {}
+                    None => {
+                        if *seq <= *high {
+                            out.set_fail("ingester:sequence-number-at-or-below-acknowledged", format!("after {}: a new entry got sequence {} although {} had already been acknowledged or recorded as flushed (log now holds {:?}, mark {:?})", what, seq, high, entries.keys().collect::<Vec<_>>(), mark));
+                            return false;
+                        }
+                    }
+                }
+            }
+            for (seq, fp) in entries {
+                seen.insert(seq, fp);
+                *high = (*high).max(seq);
+            }
+            if let Some(m) = mark {
+                *high = (*high).max(m);
+            }
+            true
+        };
+        // the process died right after truncating the log: the rewrite of the mark had begun
+        let tear_mark = |point: Option<&'static str>, out: &mut Outcome| {
+            if point == Some("flush:after_truncate") {
+                if let Some(k) = case.mark_torn {
+                    let p = wal_dir.join("flushed_seq");
+                    if let Ok(f) = std::fs::OpenOptions::new().write(true).create(true).open(&p) {
+                        let _ = f.set_len((k % 8) as u64);
+                        out.class("flushed-mark-torn-by-the-crash");
+                    }
+                }
+            }
+        };
+        let mut ops = case.ops.clone();
+        ops.push(IOp::Write { rows: 1, crash_at: None });
+        for (i, op) in ops.iter().enumerate() {
+            // (re)start when needed
+            if proc.is_none() {
+                let mut attempts = 0;
+                loop {
+                    attempts += 1;
+                    let crash = if attempts == 1 { case.restart_crash.get(restarts).cloned().flatten() } else { None };
+                    restarts += 1;
+                    let point = crash.map(|c| PAUSE_POINTS[c as usize % 4]);
+                    *armed.lock() = point;
+                    let mut ing = Ingester::new(cfg(), store.clone(), md.clone(), crate::props::c06::storage_config(), MetricSchema::default_metrics());
+                    let r = tokio::time::timeout(limit, ing.ensure_wal()).await;
+                    *armed.lock() = None;
+                    if !judge(&format!("restart {}", restarts), &mut out, &mut seen, &mut high) {
+                        return out;
+                    }
+                    match r {
+                        Ok(Ok(())) => {
+                            proc = Some(ing);
+                            break;
+                        }
+                        Ok(Err(e)) => {
+                            out.set_fail("ingester:cannot-restart", format!("ensure_wal failed without a fault: {:?}", e));
+                            return out;
+                        }
+                        Err(_) => {
+                            // crashed during start-up (in its recovery flush)
+                            out.class("crash-during-recovery-flush");
+                            crashes_in_flush += 1;
+                            drop(ing);
+                            tear_mark(point, &mut out);
+                            if attempts >= 3 {
+                                out.set_fail("ingester:cannot-restart", "three start-ups in a row did not finish");
+                                return out;
+                            }
+                        }
+                    }
+                }
+            }
+            match op {
+                IOp::Write { rows, crash_at } => {
+                    let n = 1 + (*rows as usize % 3);
+                    let spec = crate::gen::BatchSpec { schema: 0, rows: (0..n).map(|k| crate::gen::RowSpec { ts_step: k as u16, ts_jitter: 0, metric: 0, labels: [None, None, None], fval: Some(1), ival: None }).collect() };
+                    let b = crate::gen::build_batch(&spec, 1_700_000_000_000_000_000, rid, None);
+                    rid += n as i64;
+                    let point = crash_at.map(|c| PAUSE_POINTS[c as usize % 4]);
+                    *armed.lock() = point;
+                    let r = tokio::time::timeout(limit, proc.as_ref().unwrap().write(b)).await;
+                    *armed.lock() = None;
+                    if r.is_err() {
+                        tear_mark(point, &mut out);
+                        out.class(format!("crash-at:{}", PAUSE_POINTS[crash_at.unwrap_or(0) as usize % 4]));
+                        if crash_at.map(|c| c % 4 != 0).unwrap_or(false) {
+                            crashes_in_flush += 1;
+                        }
+                        proc = None;
+                    }
+                }
+                IOp::Shutdown { crash_at } => {
+                    let ing = proc.take().unwrap();
+                    let point = crash_at.map(|c| PAUSE_POINTS[1 + c as usize % 3]);
+                    *armed.lock() = point;
+                    ing.shutdown_token().cancel();
+                    let r = tokio::time::timeout(limit, ing.run_flush_timer()).await;
+                    *armed.lock() = None;
+                    if r.is_err() {
+                        tear_mark(point, &mut out);
+                        out.class("crash-during-shutdown-flush");
+                        crashes_in_flush += 1;
+                    } else {
+                        out.class("graceful-shutdown");
+                    }
+                }
+                IOp::Kill { torn } => {
+                    proc = None;
+                    if *torn > 0 {
+                        // one more entry was being appended: its first `torn` bytes are on disk
+                        if let Ok(mut w) = WriteAheadLog::open(cfg().wal).await {
+                            let before = seg_files(&wal_dir);
+                            if w.append(&probe).await.is_ok() {
+                                drop(w);
+                                let after = seg_files(&wal_dir);
+                                for (name, len) in &after {
+                                    let old = before.get(name).cloned().unwrap_or(0);
+                                    if *len > old {
+                                        let keep = old + (*torn as u64 % (*len - old));
+                                        if let Ok(f) = std::fs::OpenOptions::new().write(true).open(wal_dir.join(name)) {
+                                            let _ = f.set_len(keep);
+                                        }
+                                        out.class(if old == 0 { "torn-entry-alone-in-its-segment" } else { "torn-entry-at-the-tail" });
+                                    }
+                                }
+                            }
+                        }
+                    }
+                }
+            }
+            if !judge(&format!("op {} {:?}", i, op), &mut out, &mut seen, &mut high) {
+                return out;
+            }
+        }
+        out.count("restarts", restarts as u64);
+        out.nontrivial = restarts >= 2 && crashes_in_flush >= 1;
+        out
+    });
+    cardinalsin::verif_hooks::set_pause_handler(None);
+    out
+}
+
+fn istrategy(t: Tier) -> BoxedStrategy<ICase> {
+    let pp = || prop::option::weighted(0.35, 0u8..4);
+    let op = prop_oneof![
+        5 => (0u8..3, pp()).prop_map(|(rows, crash_at)| IOp::Write { rows, crash_at }),
+        2 => pp().prop_map(|crash_at| IOp::Shutdown { crash_at }),
+        2 => prop_oneof![1 => Just(0u16), 1 => Just(10u16), 1 => Just(22u16), 2 => any::<u16>()].prop_map(|torn| IOp::Kill { torn }),
+    ];
+    (0u8..3, 0u8..4, prop::collection::vec(op, 1..t.pick(10usize, 18usize)), prop::collection::vec(prop::option::weighted(0.3, 1u8..4), 6), prop::option::weighted(0.5, 0u8..8))
+        .prop_map(|(segments, flush_rows, ops, restart_crash, mark_torn)| ICase { segments, flush_rows, ops, restart_crash, mark_torn })
+        .boxed()
+}
+
 pub fn def() -> PropDef {
     PropDef {
         id: "C05",
         level: "exploration",
-        rule: "histories of <=25 (thorough 50) ops on the public WriteAheadLog API over real files: append(1-5 rows, 1-3 columns), flush-style truncate_before(acked x) (+persist x), start-up truncate_before(flushed+1), clean reopen, crash-during-append (entry cut at byte 0/1/21/22/23/len-1/any, also when the append had just rotated to a new segment) + reopen, crash-during-persist (flushed file left with 0-8 bytes) + reopen; segment limit in {one entry, three entries, large, 1 byte}. After every reopen: entries strictly increasing, each equal to the acknowledged payload of its seq, none unacknowledged, every acknowledged entry >= truncation point present, read_entries_after = filter, next_seq > max(acked, flushed file); every append returns a fresh seq. Non-trivial = a cut inside an entry followed by an append and a further reopen, or start-up truncation that left no entry in the log.",
+        rule: "histories of <=25 (thorough 50) ops on the public WriteAheadLog API over real files: append(1-5 rows, 1-3 columns), flush-style truncate_before(acked x) (+persist x), start-up truncate_before(flushed+1), clean reopen, crash-during-append (entry cut at byte 0/1/21/22/23/len-1/any, also when the append had just rotated to a new segment) + reopen, crash-during-persist (flushed file left with 0-8 bytes) + reopen; segment limit in {one entry, three entries, large, 1 byte}. After every reopen: entries strictly increasing, each equal to the acknowledged payload of its seq, none unacknowledged, every acknowledged entry >= truncation point present, read_entries_after = filter, next_seq > max(acked, flushed file); every append returns a fresh seq. Non-trivial = a cut inside an entry followed by an append and a further reopen, or start-up truncation that left no entry in the log. ingester-sequences: the log as its real caller uses it - a real Ingester (WAL synced on every write, segments of one / three entries or one large one, flush every 1-4 rows) through histories of writes, graceful shutdown flushes, kills (optionally with one more entry cut short at the end of the log) and restarts, each write / shutdown flush / start-up (with its recovery flush) optionally crashed at a pause point of the write / flush path (after the WAL append, after registration, after truncation, after the mark was persisted; a crash right after the truncation may leave the flushed-sequence file, which is rewritten in place, with 0-7 of its bytes); the log directory is scanned read-only after every step: an entry that is new must carry a sequence number above every one acknowledged or recorded as flushed before, and a sequence number never names two entries (non-trivial there = at least two restarts and a crash inside a flush).",
         assumptions: &["a crash is modelled at the file API: files contain what was written, the last write may be cut at any byte (torn writes below the file API / reordering of un-fsynced data are not modelled; sync mode is every_write)", "truncate/persist are generated with the real callers' discipline (flush_batches, ensure_wal)"],
-        subs: || vec![Box::new(Sub::<Case> { name: "history", cases: |t| t.scale(60_000, 6), strategy, exec })],
+        subs: || {
+            vec![
+                Box::new(Sub::<Case> { name: "history", cases: |t| t.scale(60_000, 6), strategy, exec }),
+                Box::new(Sub::<ICase> { name: "ingester-sequences", cases: |t| t.scale(12_000, 6), strategy: istrategy, exec: exec_ingester }),
+            ]
+        },
     }
 }
